@@ -49,6 +49,8 @@ def check(ctx):
         return
     pv = md.pv
     by_label = check_dispatch(ctx, md, KEY_PARAMS, RESULT)
+    from rules import extractors as _ex
+    _ex.check_extractors(ctx.under("R-1", "extractors"), "R-1")
     from rules import c17 as _c17
     _c17.check_tables(ctx.under("R-4", "registry"), only={"iana::KeyType", "iana::KeyOperation", "iana::Algorithm"})
     # "pairwise distinct labels": the duplicate rule of this decoder (C12 R-1's recogniser under this property's name)
